@@ -64,32 +64,7 @@ Theorem ql_table_rest k : doc_ql_gate k = None ->
                   end.
 Proof. destruct k; simpl; intros H; try discriminate H; reflexivity. Qed.
 
-(* ------------------------------------------------------------------ flat circuits: the walk as coded *)
-Definition run (st : wstate) : list qcall := flat_map exec_item (fst st) ++ snd st.
-
-Lemma flat_walk t : has_block t = false ->
-  forall n b st st', ofold (ql_item n b) t st = Some st' ->
-    fst st' = fst st /\ snd st' = snd st ++ flat_map calls_list (expand t).
-Proof.
-  induction t as [|i t IH]; intros HB n b st st'; simpl.
-  - intros [= <-]. now rewrite app_nil_r.
-  - destruct i as [l|? ?]; [|discriminate HB]. simpl in HB. cbn [ql_item].
-    destruct (leaf_calls l) as [cs|] eqn:E; [|discriminate].
-    intros H. destruct (IH HB n b _ _ H) as [F S]. cbn [fst snd] in *. split; [exact F|].
-    rewrite S. unfold expand. simpl.
-    assert (C : calls_list l = cs) by (unfold calls_list; now rewrite E). rewrite C. now rewrite app_assoc.
-Qed.
-
-(* C15 for circuits without sub-circuits: the executed calls are the in-order image of the listing *)
-Theorem openql_flat_in_order t cid p : has_block t = false -> ql_export t cid = Some p ->
-  executed p = flat_map calls_list (expand t) /\ p = (PN 0 (base_of t cid), [QKernel (KN (key t)) (flat_map calls_list (expand t))]).
-Proof.
-  intros HB. unfold ql_export.
-  destruct (ofold (ql_item 0 (base_of t cid)) t ([], [])) as [[its kc]|] eqn:E; [|discriminate].
-  intros [= <-]. destruct (flat_walk t HB _ _ _ _ E) as [F S]. cbn [fst snd] in *. subst its kc.
-  split; [|reflexivity]. unfold executed. simpl. now rewrite app_nil_r.
-Qed.
-
+(* ------------------------------------------------------------------ the walk *)
 Lemma wf_calls_image ls : forallb ql_wf_leaf ls = true -> Forall (fun l => leaf_calls l <> None) ls ->
   flat_map calls_list ls = flat_map ql_spec_calls ls.
 Proof.
@@ -113,181 +88,83 @@ Proof.
     inversion IH as [|? ? Hx Hb]; subst. rewrite forallb_app, (Hx Wx), (IHb Hb Wb). reflexivity.
 Qed.
 
-Theorem C15_partial_lemma t cid : has_block t = false -> ql_wf_tree t = true ->
-  exists p, ql_export t cid = Some p /\ executed p = ql_image t
-            /\ fst p = spec_pname t cid /\ snd p = [QKernel (spec_kname t) (ql_image t)].
+Definition walk_ok (i : item) : Prop :=
+  forall kc kc', ql_item i kc = Some kc' ->
+    kc' = kc ++ flat_map calls_list (expand_item i) /\ Forall (fun l => leaf_calls l <> None) (expand_item i).
+
+Lemma ofold_walk body : Forall walk_ok body ->
+  forall kc kc', ofold ql_item body kc = Some kc' ->
+    kc' = kc ++ flat_map calls_list (expand body) /\ Forall (fun l => leaf_calls l <> None) (expand body).
 Proof.
-  intros HB W. pose proof (wf_tree_expand t W) as WL.
-  assert (T : Forall (fun l => leaf_calls l <> None) (expand t)).
-  { apply Forall_forall. intros l Hl. rewrite forallb_forall in WL. destruct (ql_leaf_total l (WL l Hl)) as [cs E]. congruence. }
-  assert (D : exists st, ofold (ql_item 0 (base_of t cid)) t ([], []) = Some st).
-  { generalize (@nil qitem, @nil qcall). generalize 0%nat, (base_of t cid). clear W WL.
-    induction t as [|i t IH]; intros n b st; simpl; [eauto|].
-    destruct i as [l|? ?]; [|discriminate HB]. simpl in HB. unfold expand in T. simpl in T. inversion T as [|? ? Hl Hr]; subst.
-    cbn [ql_item]. destruct (leaf_calls l) as [cs|]; [|congruence]. apply IH; assumption. }
-  destruct D as [[its kc] E].
-  assert (X : ql_export t cid = Some (PN 0 (base_of t cid), its ++ [QKernel (KN (key t)) kc])) by (unfold ql_export; now rewrite E).
-  destruct (openql_flat_in_order t cid _ HB X) as [Ex Ep].
-  eexists. split; [exact X|]. rewrite Ex. unfold ql_image. rewrite (wf_calls_image _ WL T).
-  split; [reflexivity|]. inversion Ep as [[Ei]]. rewrite Ei. cbn [fst snd]. unfold spec_pname, spec_kname, base_of, key.
-  rewrite (wf_calls_image _ WL T). split; [destruct cid; reflexivity | reflexivity].
-Qed.
-
-(* ------------------------------------------------------------------ the walk as coded is not the in-order image *)
-Definition f7_witness : list item :=
-  [Leaf (MkLeaf K_Rx180 [0] []); Block 1 [Leaf (MkLeaf K_Ry90 [0] [])]; Leaf (MkLeaf K_Rx90 [0] [])].
-
-Theorem C15_refuted_lemma : exists t, ql_wf_tree t = true /\
-  exists p, ql_export t None = Some p /\ executed p <> ql_image t.
-Proof.
-  exists f7_witness. split; [reflexivity|]. eexists. split; [vm_compute; reflexivity|]. vm_compute. discriminate.
-Qed.
-
-(* what is executed instead: the sub-circuit first *)
-Example f7_executed : option_map executed (ql_export f7_witness None)
-                      = Some [QGate "y90" [0]; QGate "x180" [0]; QGate "x90" [0]].
-Proof. vm_compute. reflexivity. Qed.
-
-(* repetition count 2 / two blocks with equal class names: the same kernel name is added twice (OpenQL: duplicate kernel name) *)
-Example f7b_duplicate : option_map (fun p => has_dup (kernel_names p))
-  (ql_export [Leaf (MkLeaf K_Rx180 [0] []); Block 2 [Leaf (MkLeaf K_Ry90 [0] [])]; Leaf (MkLeaf K_Rx90 [0] [])] None) = Some true.
-Proof. vm_compute. reflexivity. Qed.
-Example f7c_duplicate : option_map (fun p => has_dup (kernel_names p))
-  (ql_export [Block 1 [Leaf (MkLeaf K_Ry90 [0] [])]; Block 1 [Leaf (MkLeaf K_Ry90 [1] [])]] None) = Some true.
-Proof. vm_compute. reflexivity. Qed.
-
-(* ------------------------------------------------------------------ the corrected walk satisfies the statement *)
-Section CorrectedWalk.
-Variable fresh : nat -> list item -> kname.
-
-Definition cwalk_ok (i : item) : Prop :=
-  forall n b st st', qlc_item fresh n b i st = Some st' ->
-    run st' = run st ++ flat_map calls_list (expand_item i) /\ Forall (fun l => leaf_calls l <> None) (expand_item i).
-
-Lemma run_app_calls its kc cs : run (its, kc ++ cs) = run (its, kc) ++ cs.
-Proof. unfold run. simpl. now rewrite app_assoc. Qed.
-
-Lemma cofold_walk body : Forall cwalk_ok body ->
-  forall n b st st', ofold (qlc_item fresh n b) body st = Some st' ->
-    run st' = run st ++ flat_map calls_list (expand body) /\ Forall (fun l => leaf_calls l <> None) (expand body).
-Proof.
-  induction 1 as [|x r Hx _ IH]; intros n b st st'; simpl.
+  induction 1 as [|x r Hx _ IH]; intros kc kc'; simpl.
   - intros [= <-]. rewrite app_nil_r. split; [reflexivity | constructor].
-  - destruct (qlc_item fresh n b x st) as [s1|] eqn:E1; [|discriminate]. intros E2.
-    destruct (Hx _ _ _ _ E1) as [R1 O1]. destruct (IH _ _ _ _ E2) as [R2 O2]. split.
+  - destruct (ql_item x kc) as [k1|] eqn:E1; [|discriminate]. intros E2.
+    destruct (Hx _ _ E1) as [R1 O1]. destruct (IH _ _ E2) as [R2 O2]. split.
     + rewrite R2, R1. unfold expand. simpl. now rewrite flat_map_app, app_assoc.
     + unfold expand in *. simpl. apply Forall_app. split; assumption.
 Qed.
 
-Lemma flat_map_exec_rep n x : flat_map exec_item (rep_list n [x]) = rep_list n (exec_item x).
-Proof. induction n as [|n IH]; simpl; [reflexivity | now rewrite IH]. Qed.
-
-Lemma cwalk_item i : cwalk_ok i.
+Lemma walk_item i : walk_ok i.
 Proof.
-  induction i as [l | reps body IH] using item_ind'; intros n b st st'; simpl.
+  induction i as [l | reps body IH] using item_ind'; intros kc kc'; simpl.
   - unfold calls_list. destruct (leaf_calls l) as [cs|] eqn:E; [|discriminate]. intros [= <-].
-    destruct st as [its kc]. cbn [fst snd]. rewrite run_app_calls, app_nil_r.
-    split; [reflexivity | constructor; [congruence | constructor]].
-  - destruct (ofold (qlc_item fresh (S n) b) body ([], [])) as [[its kc]|] eqn:E; [|discriminate]. intros [= <-].
-    destruct (cofold_walk body IH _ _ _ _ E) as [R O]. unfold run in R. cbn [fst snd] in R. simpl in R.
-    split; [|apply Forall_rep_list; exact O].
-    unfold run. cbn [fst snd]. rewrite app_nil_r, flat_map_app. cbn [flat_map exec_item].
-    rewrite flat_map_exec_rep. cbn [exec_item]. rewrite flat_map_app. cbn [flat_map exec_item]. rewrite app_nil_r, R.
-    unfold expand. rewrite flat_map_rep_list. now rewrite <- !app_assoc.
+    rewrite app_nil_r. split; [reflexivity | constructor; [congruence | constructor]].
+  - pose proof (ofold_walk body IH) as W. unfold expand in W. rewrite flat_map_rep_list.
+    generalize (Z.to_nat reps). intros n. revert kc kc'. induction n as [|n IHn]; intros kc kc'; simpl.
+    + intros [= <-]. rewrite app_nil_r. split; [reflexivity | constructor].
+    + destruct (ofold ql_item body kc) as [k1|] eqn:E1; [|discriminate]. intros E2.
+      destruct (W _ _ E1) as [R1 O1]. destruct (IHn _ _ E2) as [R2 O2]. split.
+      * rewrite R2, R1. now rewrite app_assoc.
+      * apply Forall_app. split; assumption.
 Qed.
 
-Theorem openql_in_order_lemma t cid p : qlc_export fresh t cid = Some p ->
-  executed p = flat_map calls_list (expand t) /\ Forall (fun l => leaf_calls l <> None) (expand t).
+(* the export, whenever it returns: one kernel holding the in-order image of the expanded listing (model-level calls) *)
+Theorem openql_walk t cid p : ql_export t cid = Some p ->
+  p = (PN 0 (base_of t cid), [QKernel (KN (key t)) (flat_map calls_list (expand t))])
+  /\ Forall (fun l => leaf_calls l <> None) (expand t).
 Proof.
-  unfold qlc_export. destruct (ofold (qlc_item fresh 0 (base_of t cid)) t ([], [])) as [[its kc]|] eqn:E; [|discriminate].
-  intros [= <-].
-  assert (A : Forall cwalk_ok t) by (apply Forall_forall; intros i _; apply cwalk_item).
-  destruct (cofold_walk t A _ _ _ _ E) as [R O]. split; [|exact O].
-  unfold executed, run in *. cbn [fst snd] in *. rewrite flat_map_app. simpl. now rewrite app_nil_r.
+  unfold ql_export. destruct (ofold ql_item t []) as [kc|] eqn:E; [|discriminate]. intros [= <-].
+  assert (A : Forall walk_ok t) by (apply Forall_forall; intros i _; apply walk_item).
+  destruct (ofold_walk t A _ _ E) as [R O]. simpl in R. subst kc. split; [reflexivity | exact O].
 Qed.
-End CorrectedWalk.
 
-(* the statement of C15, for the corrected walk: on the statement's domain the executed calls are the documented image *)
-Theorem openql_in_order_documented fresh t cid p : ql_wf_tree t = true -> qlc_export fresh t cid = Some p ->
-  executed p = ql_image t.
+(* C15, in full: on the statement's domain the executed calls are the documented image of the expanded listing -- every
+   tree, any nesting, any repetition counts -- in one kernel, under the specified names *)
+Theorem openql_in_order t cid p : ql_wf_tree t = true -> ql_export t cid = Some p ->
+  executed p = ql_image t /\ p = (spec_pname t cid, [QKernel (spec_kname t) (ql_image t)]).
 Proof.
-  intros W H. destruct (openql_in_order_lemma fresh t cid p H) as [E O]. rewrite E. unfold ql_image.
-  apply wf_calls_image; [apply wf_tree_expand; exact W | exact O].
+  intros W H. destruct (openql_walk t cid p H) as [-> O].
+  rewrite (wf_calls_image _ (wf_tree_expand t W) O). fold (ql_image t). split.
+  - unfold executed. simpl. now rewrite app_nil_r.
+  - unfold spec_pname, spec_kname, base_of, key. destruct cid; reflexivity.
 Qed.
 
-Example corrected_on_witness :
-  option_map executed (qlc_export (fun n _ => KRaw "k") f7_witness None)
-  = Some [QGate "x180" [0]; QGate "y90" [0]; QGate "x90" [0]].
-Proof. vm_compute. reflexivity. Qed.
+(* ... and on that domain the export does return *)
+Definition total_ok (i : item) : Prop := ql_wf_item i = true -> forall kc, exists kc', ql_item i kc = Some kc'.
+
+Lemma ofold_total body : Forall total_ok body -> forallb ql_wf_item body = true -> forall kc, exists kc', ofold ql_item body kc = Some kc'.
+Proof.
+  induction 1 as [|x r Hx _ IH]; simpl; intros W kc; [eauto|].
+  apply andb_true_iff in W. destruct W as [Wx Wr]. destruct (Hx Wx kc) as [k1 E1]. rewrite E1. apply IH; assumption.
+Qed.
+
+Lemma total_item i : total_ok i.
+Proof.
+  induction i as [l | reps body IH] using item_ind'; intros W kc; simpl in *.
+  - destruct (ql_leaf_total l W) as [cs E]. rewrite E. eauto.
+  - apply andb_true_iff in W. destruct W as [_ Wb]. pose proof (ofold_total body IH Wb) as T.
+    generalize (Z.to_nat reps). intros n. revert kc. induction n as [|n IHn]; intros kc; simpl; [eauto|].
+    destruct (T kc) as [k1 E1]. rewrite E1. apply IHn.
+Qed.
+
+Theorem openql_total t cid : ql_wf_tree t = true -> exists p, ql_export t cid = Some p.
+Proof.
+  intros W. unfold ql_export.
+  assert (A : Forall total_ok t) by (apply Forall_forall; intros i _; apply total_item).
+  destruct (ofold_total t A W []) as [kc E]. rewrite E. eauto.
+Qed.
 
 (* ------------------------------------------------------------------ names *)
-(* the listing with qubits and arguments erased *)
-Inductive ktree := KLeaf (k : kind) | KBlock (reps : Z) (body : list ktree).
-Fixpoint kinds_item (i : item) : ktree :=
-  match i with Leaf l => KLeaf (l_kind l) | Block n b => KBlock n (map kinds_item b) end.
-Definition kinds_tree (t : list item) : list ktree := map kinds_item t.
-
-Fixpoint kkey_item (k : ktree) : list kind :=
-  match k with KLeaf x => [x] | KBlock _ b => flat_map kkey_item b end.
-
-Lemma key_kinds t : key t = flat_map kkey_item (kinds_tree t).
-Proof.
-  unfold key, leaves, kinds_tree. induction t as [|i t IHt]; [reflexivity|]. simpl. rewrite map_app, IHt. f_equal. clear IHt t.
-  induction i as [l | n b IH] using item_ind'; [reflexivity|]. simpl.
-  induction b as [|x b IHb]; [reflexivity|]. inversion IH as [|? ? Hx Hb]; subst. simpl. now rewrite map_app, Hx, (IHb Hb).
-Qed.
-
-(* names only: the structure with the calls erased *)
-Inductive skel := SSub (n : pname) (items : list skel) | SKernel (n : kname).
-Fixpoint skel_item (i : qitem) : skel :=
-  match i with QSub n items => SSub n (map skel_item items) | QKernel n _ => SKernel n end.
-
-(* the skeleton computed from the kinds alone *)
-Fixpoint sk_item (nsub : nat) (base : pbase) (k : ktree) : list skel :=
-  match k with
-  | KLeaf _ => []
-  | KBlock n b => rep_list (Z.to_nat n) [SSub (PN (S nsub) base) (flat_map (sk_item (S nsub) base) b ++ [SKernel (KN (flat_map kkey_item b))])]
-  end.
-
-Lemma map_rep_list {A B} (f : A -> B) n l : map f (rep_list n l) = rep_list n (map f l).
-Proof. induction n; simpl; [reflexivity | now rewrite map_app, IHn]. Qed.
-
-Definition nwalk_ok (i : item) : Prop :=
-  forall n b st st', ql_item n b i st = Some st' -> map skel_item (fst st') = map skel_item (fst st) ++ sk_item n b (kinds_item i).
-
-Lemma nofold_walk body : Forall nwalk_ok body ->
-  forall n b st st', ofold (ql_item n b) body st = Some st' ->
-    map skel_item (fst st') = map skel_item (fst st) ++ flat_map (sk_item n b) (kinds_tree body).
-Proof.
-  induction 1 as [|x r Hx _ IH]; intros n b st st'; simpl.
-  - intros [= <-]. now rewrite app_nil_r.
-  - destruct (ql_item n b x st) as [s1|] eqn:E1; [|discriminate]. intros E2.
-    rewrite (IH _ _ _ _ E2), (Hx _ _ _ _ E1). now rewrite app_assoc.
-Qed.
-
-Lemma nwalk_item i : nwalk_ok i.
-Proof.
-  induction i as [l | reps body IH] using item_ind'; intros n b st st'; simpl.
-  - destruct (leaf_calls l); [|discriminate]. intros [= <-]. simpl. now rewrite app_nil_r.
-  - destruct (ofold (ql_item (S n) b) body ([], [])) as [[its kc]|] eqn:E; [|discriminate]. intros [= <-].
-    pose proof (nofold_walk body IH _ _ _ _ E) as R. cbn [fst] in *. simpl in R.
-    rewrite map_app, map_rep_list. simpl. rewrite map_app, R. simpl. rewrite key_kinds. reflexivity.
-Qed.
-
-Definition skel_prog (p : qprog) : pname * list skel := (fst p, map skel_item (snd p)).
-Definition sk_prog (kt : list ktree) (cid : option string) : pname * list skel :=
-  let base := match cid with Some s => PB_id s | None => PB_hash (flat_map kkey_item kt) end in
-  (PN 0 base, flat_map (sk_item 0 base) kt ++ [SKernel (KN (flat_map kkey_item kt))]).
-
-(* every program and kernel name of the export is a function of the class sequence of the listing (and the given id) *)
-Theorem openql_names_lemma t cid p : ql_export t cid = Some p -> skel_prog p = sk_prog (kinds_tree t) cid.
-Proof.
-  unfold ql_export. destruct (ofold (ql_item 0 (base_of t cid)) t ([], [])) as [[its kc]|] eqn:E; [|discriminate].
-  intros [= <-]. assert (A : Forall nwalk_ok t) by (apply Forall_forall; intros i _; apply nwalk_item).
-  pose proof (nofold_walk t A _ _ _ _ E) as R. cbn [fst] in R. simpl in R.
-  unfold skel_prog, sk_prog. unfold base_of in *. cbn [fst snd]. rewrite map_app, R. simpl. rewrite !key_kinds. reflexivity.
-Qed.
-
 Section Render.
 (* the first 8 hex digits of uuid5(NAMESPACE_DNS, '_'.join(class names)): any function of the class-name sequence *)
 Variable uuid8 : list string -> string.
@@ -299,100 +176,75 @@ Definition render_pname (p : pname) : string :=
   end.
 Definition render_kname (k : kname) : string :=
   match k with KN key => "kernel_" ++ uuid8 (map kind_name key) | KRaw s => s end.
-Fixpoint render_skel (s : skel) : list string :=
-  match s with
-  | SSub n items => render_pname n :: flat_map render_skel items
-  | SKernel n => [render_kname n]
+Fixpoint render_item (i : qitem) : list string :=
+  match i with
+  | QSub n items => render_pname n :: flat_map render_item items
+  | QKernel n _ => [render_kname n]
   end.
-Definition render_names (p : qprog) : list string :=
-  render_pname (fst p) :: flat_map render_skel (map skel_item (snd p)).
+(* every program and kernel name of an export, in the order the objects appear *)
+Definition render_names (p : qprog) : list string := render_pname (fst p) :: flat_map render_item (snd p).
 
-(* same classes in the same nesting => the very same names, whatever the hash function *)
+(* the same class-name sequence (and the same circuit_id, if one is given) => the very same names, whatever the hash *)
 Theorem openql_names_deterministic t1 t2 cid p1 p2 :
-  kinds_tree t1 = kinds_tree t2 -> ql_export t1 cid = Some p1 -> ql_export t2 cid = Some p2 ->
+  map kind_name (key t1) = map kind_name (key t2) -> ql_export t1 cid = Some p1 -> ql_export t2 cid = Some p2 ->
   render_names p1 = render_names p2.
 Proof.
-  intros K H1 H2. apply openql_names_lemma in H1. apply openql_names_lemma in H2. rewrite K in H1.
-  assert (E : skel_prog p1 = skel_prog p2) by congruence. unfold skel_prog in E. inversion E as [[E1 E2]].
-  unfold render_names. now rewrite E1, E2.
+  intros K H1 H2. destruct (openql_walk _ _ _ H1) as [-> _]. destruct (openql_walk _ _ _ H2) as [-> _].
+  unfold render_names, base_of. cbn [fst snd flat_map render_item render_kname app].
+  destruct cid; cbn [render_pname subs]; now rewrite ?K.
 Qed.
 
-(* the top-level names need only the class-NAME sequence of the decomposed listing *)
-Theorem openql_top_names t1 t2 p1 p2 :
-  map kind_name (key t1) = map kind_name (key t2) -> ql_export t1 None = Some p1 -> ql_export t2 None = Some p2 ->
-  render_pname (fst p1) = render_pname (fst p2) /\
-  (forall its1 k1 c1 its2 k2 c2, snd p1 = its1 ++ [QKernel k1 c1] -> snd p2 = its2 ++ [QKernel k2 c2] -> render_kname k1 = render_kname k2).
-Proof.
-  intros K H1 H2. unfold ql_export in *.
-  destruct (ofold (ql_item 0 (base_of t1 None)) t1 ([], [])) as [[i1 c1]|]; [|discriminate].
-  destruct (ofold (ql_item 0 (base_of t2 None)) t2 ([], [])) as [[i2 c2]|]; [|discriminate].
-  inversion H1; subst p1. inversion H2; subst p2. cbn [fst snd base_of render_pname subs]. split.
-  - now rewrite K.
-  - intros a k1 x b k2 y E1 E2. apply app_inj_tail in E1. apply app_inj_tail in E2.
-    destruct E1 as [_ E1], E2 as [_ E2]. inversion E1; inversion E2; subst. cbn [render_kname]. now rewrite K.
-Qed.
+Theorem openql_names_spec t cid p : ql_export t cid = Some p ->
+  render_names p = [match cid with Some s => s | None => ("program_" ++ uuid8 (map kind_name (key t)))%string end;
+                    ("kernel_" ++ uuid8 (map kind_name (key t)))%string].
+Proof. intros H. destruct (openql_walk _ _ _ H) as [-> _]. destruct cid; reflexivity. Qed.
 End Render.
 
-(* ------------------------------------------------------------------ the proposed repair (inline expansion) *)
-Definition iwalk_ok (i : item) : Prop :=
-  forall kc kc', qli_item i kc = Some kc' ->
-    kc' = kc ++ flat_map calls_list (expand_item i) /\ Forall (fun l => leaf_calls l <> None) (expand_item i).
+(* ------------------------------------------------------------------ non-vacuity *)
+Definition f7_witness : list item :=
+  [Leaf (MkLeaf K_Rx180 [0] []); Block 1 [Leaf (MkLeaf K_Ry90 [0] [])]; Leaf (MkLeaf K_Rx90 [0] [])].
+Definition nested_example : list item :=
+  [Leaf (MkLeaf K_Rx180 [0] []); Leaf (MkLeaf K_CPhase [0; 1] []);
+   Block 2 [Leaf (MkLeaf K_Ry90 [0] []); Block 3 [Leaf (MkLeaf K_Wait [1] [Some 12]); Leaf (MkLeaf K_VirtualPhase [0] [])];
+            Leaf (MkLeaf K_Barrier [0; 1; 1] [])];
+   Leaf (MkLeaf K_DispersiveMeasure [0] [])].
 
-Lemma iofold_walk body : Forall iwalk_ok body ->
-  forall kc kc', ofold qli_item body kc = Some kc' ->
-    kc' = kc ++ flat_map calls_list (expand body) /\ Forall (fun l => leaf_calls l <> None) (expand body).
-Proof.
-  induction 1 as [|x r Hx _ IH]; intros kc kc'; simpl.
-  - intros [= <-]. rewrite app_nil_r. split; [reflexivity | constructor].
-  - destruct (qli_item x kc) as [k1|] eqn:E1; [|discriminate]. intros E2.
-    destruct (Hx _ _ E1) as [R1 O1]. destruct (IH _ _ E2) as [R2 O2]. split.
-    + rewrite R2, R1. unfold expand. simpl. now rewrite flat_map_app, app_assoc.
-    + unfold expand in *. simpl. apply Forall_app. split; assumption.
-Qed.
+Example in_order_nonvacuous :
+  ql_wf_tree nested_example = true /\
+  option_map executed (ql_export nested_example (Some "id"))
+  = Some [QGate "x180" [0]; QCz 0 1; QBarrier [0; 1]; QGate "update_ph" [0]; QGate "update_ph" [1];
+          QGate "y90" [0]; QWait [1] 3; QWait [1] 3; QWait [1] 3; QBarrier [0; 1];
+          QGate "y90" [0]; QWait [1] 3; QWait [1] 3; QWait [1] 3; QBarrier [0; 1];
+          QGate "measure" [0]].
+Proof. split; vm_compute; reflexivity. Qed.
 
-Lemma iwalk_item i : iwalk_ok i.
-Proof.
-  induction i as [l | reps body IH] using item_ind'; intros kc kc'; simpl.
-  - unfold calls_list. destruct (leaf_calls l) as [cs|] eqn:E; [|discriminate]. intros [= <-].
-    rewrite app_nil_r. split; [reflexivity | constructor; [congruence | constructor]].
-  - pose proof (iofold_walk body IH) as W. unfold expand in W. rewrite flat_map_rep_list.
-    generalize (Z.to_nat reps). intros n. revert kc kc'. induction n as [|n IHn]; intros kc kc'; simpl.
-    + intros [= <-]. rewrite app_nil_r. split; [reflexivity | constructor].
-    + destruct (ofold qli_item body kc) as [k1|] eqn:E1; [|discriminate]. intros E2.
-      destruct (W _ _ E1) as [R1 O1]. destruct (IHn _ _ E2) as [R2 O2]. split.
-      * rewrite R2, R1. now rewrite app_assoc.
-      * apply Forall_app. split; assumption.
-Qed.
-
-Theorem openql_patched_in_order t cid p : ql_wf_tree t = true -> qli_export t cid = Some p ->
-  executed p = ql_image t /\ p = (spec_pname t cid, [QKernel (spec_kname t) (ql_image t)]).
-Proof.
-  intros W. unfold qli_export. destruct (ofold qli_item t []) as [kc|] eqn:E; [|discriminate]. intros [= <-].
-  assert (A : Forall iwalk_ok t) by (apply Forall_forall; intros i _; apply iwalk_item).
-  destruct (iofold_walk t A _ _ E) as [R O]. simpl in R. subst kc.
-  rewrite (wf_calls_image _ (wf_tree_expand t W) O). fold (ql_image t). split.
-  - unfold executed. simpl. now rewrite app_nil_r.
-  - unfold spec_pname, spec_kname, base_of, key. destruct cid; reflexivity.
-Qed.
-
-Example patched_on_witness :
-  option_map executed (qli_export f7_witness None) = Some [QGate "x180" [0]; QGate "y90" [0]; QGate "x90" [0]].
+Example f7_witness_now :
+  option_map executed (ql_export f7_witness None) = Some [QGate "x180" [0]; QGate "y90" [0]; QGate "x90" [0]].
 Proof. vm_compute. reflexivity. Qed.
-
-(* ------------------------------------------------------------------ non-vacuity of C15_partial and of the name theorems *)
-Definition flat_example : list item :=
-  [Leaf (MkLeaf K_Rx180 [0] []); Leaf (MkLeaf K_CPhase [0; 1] []); Leaf (MkLeaf K_Wait [1] [Some 12]);
-   Leaf (MkLeaf K_VirtualPhase [0] []); Leaf (MkLeaf K_Barrier [0; 1; 1] []); Leaf (MkLeaf K_DispersiveMeasure [0] [])].
-
-Example partial_nonvacuous :
-  has_block flat_example = false /\ ql_wf_tree flat_example = true /\
-  option_map executed (ql_export flat_example (Some "id"))
-  = Some [QGate "x180" [0]; QCz 0 1; QBarrier [0; 1]; QGate "update_ph" [0]; QGate "update_ph" [1]; QWait [1] 3;
-          QBarrier [0; 1]; QGate "measure" [0]].
-Proof. repeat split; vm_compute; reflexivity. Qed.
 
 Example names_nonvacuous :
   let t1 := [Leaf (MkLeaf K_Rx180 [0] []); Block 2 [Leaf (MkLeaf K_Ry90 [0] [])]] in
-  let t2 := [Leaf (MkLeaf K_Rx180 [3] []); Block 2 [Leaf (MkLeaf K_Ry90 [1] [])]] in
-  kinds_tree t1 = kinds_tree t2 /\ ql_export t1 None <> None /\ ql_export t2 None <> None /\ t1 <> t2.
+  let t2 := [Block 1 [Leaf (MkLeaf K_Rx180 [3] [])]; Leaf (MkLeaf K_Ry90 [1] [])] in
+  map kind_name (key t1) = map kind_name (key t2) /\ ql_export t1 None <> None /\ ql_export t2 None <> None /\ t1 <> t2.
 Proof. cbn. repeat split; discriminate. Qed.
+
+(* ------------------------------------------------------------------ history: the walk before 40c98cf (finding F7) *)
+(* (a) it executed sub-circuits before all of the parent's own gates *)
+Theorem old_walk_refuted : exists t, ql_wf_tree t = true /\
+  exists p, ql_export_old t None = Some p /\ executed p <> ql_image t.
+Proof.
+  exists f7_witness. split; [reflexivity|]. eexists. split; [vm_compute; reflexivity|]. vm_compute. discriminate.
+Qed.
+Example old_walk_executed : option_map executed (ql_export_old f7_witness None)
+                            = Some [QGate "y90" [0]; QGate "x180" [0]; QGate "x90" [0]].
+Proof. vm_compute. reflexivity. Qed.
+(* (b), (c) repetition count 2 / two blocks with equal class names added the same kernel name twice (OpenQL: duplicate kernel name) *)
+Example old_walk_duplicate_b : option_map (fun p => has_dup (kernel_names p))
+  (ql_export_old [Leaf (MkLeaf K_Rx180 [0] []); Block 2 [Leaf (MkLeaf K_Ry90 [0] [])]; Leaf (MkLeaf K_Rx90 [0] [])] None) = Some true.
+Proof. vm_compute. reflexivity. Qed.
+Example old_walk_duplicate_c : option_map (fun p => has_dup (kernel_names p))
+  (ql_export_old [Block 1 [Leaf (MkLeaf K_Ry90 [0] [])]; Block 1 [Leaf (MkLeaf K_Ry90 [1] [])]] None) = Some true.
+Proof. vm_compute. reflexivity. Qed.
+(* the current walk never does *)
+Lemma no_duplicate_now t cid p : ql_export t cid = Some p -> has_dup (kernel_names p) = false.
+Proof. intros H. destruct (openql_walk _ _ _ H) as [-> _]. reflexivity. Qed.
